@@ -89,7 +89,12 @@ Inductive ppc :=
 | PWord (r : rec)       (* buf[1] = rec *)
 | PBump (r : rec)       (* curr_buf->size += 16 *)
 | PCopy (r : rec)       (* mcount_memcpy4(ptr, argbuf + 4, size) *)
-| PBumpPl (r : rec).    (* curr_buf->size += ALIGN(size, 8) *)
+| PBumpPl (r : rec)     (* curr_buf->size += ALIGN(size, 8) *)
+| PPrepStart            (* prepare_shmem_buffer: both buffers exist; REC_START for index 0 *)
+| PPrepFlag             (* prepare_shmem_buffer: buffer[0]->flag = RECORDING | NEW (curr = 0) *)
+| PDark.                (* nothing this thread does can reach the recorder any more: it is done (mtd_dtor,
+                           shmem.done), or the message pipe was closed (mcount_trace_finish, fd = -1) and it
+                           moved on to a buffer whose REC_START was never delivered *)
 
 Record st := {
   bufs : list buf;        (* the thread's ring of shm buffers, by index *)
@@ -195,6 +200,11 @@ Definition pstep (single : bool) (cap : nat) (s : st) : st :=
       let off := if single then 16 else 0 in
       with_pc PIdle (with_done (done s ++ [r])
                        (on_cur (fun b => set_size (b_size b + off + align8 (length (r_pl r))) b) s))
+  | PDark => s
+  | PPrepStart => with_pc PPrepFlag (with_chan (chan s ++ [MStart 0]) s)
+  | PPrepFlag =>
+      with_pc PIdle (with_curr (Some 0)
+        (with_bufs (upd 0 (set_flag {| f_new := true; f_written := false; f_rec := true |}) (bufs s)) s))
   end.
 
 (* shmem_finish at a normal thread end: REC_END for the current buffer *)
@@ -202,6 +212,27 @@ Definition pend_thread (s : st) : st :=
   match curr s with
   | Some c => with_curr None (with_chan (chan s ++ [MEnd c]) s)
   | None => s
+  end.
+
+(* a producer step while the message pipe is closed (another thread - or a signal handler's flag picked up
+   by another thread - ran mcount_trace_finish: uftrace_send_message returns at once).  REC_END / REC_START
+   are lost: the buffer that was current stays announced (flush_shmem_list writes it at the end); whatever
+   the thread stores from then on goes to buffers the recorder never hears of.  That part of the run is
+   not modelled store by store: the thread is `PDark` (its remaining records are dropped from the ghost
+   state; the tie checks on the real code that the data file is the same). *)
+Definition pstep_closed (single : bool) (cap : nat) (s : st) : st :=
+  match pc s with
+  | PFinish r => with_pc PDark (with_todo [] s)                     (* REC_END lost; curr stays announced *)
+  | PStart r => with_pc PDark (with_todo [] (with_curr None s))     (* REC_START lost: the new buffer is unknown *)
+  | PPrepStart => with_pc PDark (with_todo [] s)                    (* ... the thread's very first buffer *)
+  | _ => pstep single cap s
+  end.
+(* mtd_dtor between two hook calls: a normal thread end sends REC_END (shmem_finish); after a finish /
+   signal trigger the pipe is closed first, so the REC_END is lost.  Later hook calls record nothing. *)
+Definition dstep (closed : bool) (s : st) : st :=
+  match pc s with
+  | PIdle => with_pc PDark (with_todo [] (if closed then s else pend_thread s))
+  | _ => s
   end.
 
 Fixpoint remove_first (i : nat) (l : list nat) : list nat :=
@@ -234,9 +265,14 @@ Definition wstep (s : st) : st :=
   | i :: w => write_one true i (with_wl w s)
   end.
 
-Inductive lab := LP | LR | LW.
+Inductive lab := LP | LR | LW
+                | LPC            (* producer step with the pipe closed *)
+                | LD | LDC.      (* mtd_dtor with the pipe open / closed *)
 Definition step (single : bool) (cap : nat) (l : lab) (s : st) : st :=
-  match l with LP => pstep single cap s | LR => rstep s | LW => wstep s end.
+  match l with
+  | LP => pstep single cap s | LR => rstep s | LW => wstep s
+  | LPC => pstep_closed single cap s | LD => dstep false s | LDC => dstep true s
+  end.
 Definition run (single : bool) (cap : nat) (sched : list lab) (s : st) : st :=
   fold_left (fun s l => step single cap l s) sched s.
 
@@ -258,6 +294,11 @@ Definition init (recs : list rec) : st :=
                fresh_buf ];
      curr := Some 0; chan := [MStart 0]; shl := []; wl := []; file := [];
      pc := PIdle; todo := recs; done := [] |}.
+
+(* before the thread's first hook call has set it up (mcount_prepare -> prepare_shmem_buffer) *)
+Definition init0 (recs : list rec) : st :=
+  {| bufs := [fresh_buf; fresh_buf]; curr := None; chan := []; shl := []; wl := []; file := [];
+     pc := PPrepStart; todo := recs; done := [] |}.
 
 (* the window between the two size updates of a record with payload *)
 Definition in_window (single : bool) (s : st) : bool :=
@@ -523,31 +564,36 @@ Fixpoint bad_indices {A} (ok : A -> bool) (l : list A) (i : nat) : list nat :=
 (* visible events of the producer: a change of (size, flag) of some buffer *)
 Definition visible (single : bool) (s : st) : bool :=
   match pc s with
-  | PPick _ => true
+  | PPick _ | PPrepFlag => true
   | PBump r => negb (single && has_pl r)
   | PBumpPl r => single || negb (Nat.eqb (align8 (length (r_pl r))) 0)
   | _ => false
   end.
-(* producer steps until `n` records are complete and the producer is idle *)
-Fixpoint p_until_done (single : bool) (cap fuel n : nat) (s : st) : list lab :=
+(* producer steps until `n` records are complete and the producer is idle (or dark) *)
+Definition plab (closed : bool) : lab := if closed then LPC else LP.
+Fixpoint p_until_done (single closed : bool) (cap fuel n : nat) (s : st) : list lab :=
   match fuel with
   | O => []
   | S k => match pc s with
-           | PIdle => if n <=? length (done s) then [] else LP :: p_until_done single cap k n (pstep single cap s)
-           | _ => LP :: p_until_done single cap k n (pstep single cap s)
+           | PDark => []
+           | PIdle => if n <=? length (done s) then []
+                      else plab closed :: p_until_done single closed cap k n (step single cap (plab closed) s)
+           | _ => plab closed :: p_until_done single closed cap k n (step single cap (plab closed) s)
            end
   end.
 (* producer steps until `e` visible events have happened (stops right after the e-th), or until
-   `n` records are complete *)
-Fixpoint p_until_events (single : bool) (cap fuel e n : nat) (s : st) : list lab :=
+   `n` records are complete, or the thread is dark *)
+Fixpoint p_until_events (single closed : bool) (cap fuel e n : nat) (s : st) : list lab :=
   match fuel, e with
   | O, _ => []
   | _, O => []
   | S k, S e' =>
       match pc s with
+      | PDark => []
       | PIdle => if n <=? length (done s) then []
-                 else LP :: p_until_events single cap k e n (pstep single cap s)
-      | _ => LP :: p_until_events single cap k (if visible single s then e' else e) n (pstep single cap s)
+                 else plab closed :: p_until_events single closed cap k e n (step single cap (plab closed) s)
+      | _ => plab closed :: p_until_events single closed cap k (if visible single s then e' else e) n
+                                           (step single cap (plab closed) s)
       end
   end.
 (* the recorder catches up completely: every message, then every queued buffer *)
@@ -560,26 +606,34 @@ Definition catch_up (s : st) : list lab := repeat LR (length (chan s)) ++ repeat
    through SIGSEGV/SIGABRT, whose handler flushes the open calls first). *)
 Record tcase := {
   tc_single : bool; tc_cap : nat; tc_ops : list op; tc_sync : list bool; tc_kill : option nat; tc_flush : bool;
+  tc_close : nat;      (* the pipe is closed (as by another thread's mcount_trace_finish) before this op; >= #ops: never *)
+  tc_end : N;          (* after the last op: 0 nothing, 1 mtd_dtor after a finish / signal trigger (pipe closed),
+                          2 mtd_dtor of a normal thread end (pipe open) *)
   (* what the implementation showed *)
   tc_shl : list nat; tc_shf : list N; tc_wl : list nat; tc_file : list N }.
 
 Definition fuel_for (n : nat) : nat := 12 * n + 12.
-Fixpoint tie_ops (single : bool) (cap : nat) (groups : list (list rec)) (syncs : list bool) (kill : option nat) (s : st) : st :=
+Fixpoint tie_ops (single : bool) (cap : nat) (i close_at : nat) (groups : list (list rec)) (syncs : list bool)
+         (kill : option nat) (s : st) : st :=
   match groups with
   | [] => s
   | g :: rest =>
+      let closed := close_at <=? i in
       let s1 := if hd false syncs then run single cap (catch_up s) s else s in
       let n := length (done s1) + length g in
       match rest, kill with
-      | [], Some e => run single cap (p_until_events single cap (fuel_for (length g)) e n s1) s1
-      | _, _ => tie_ops single cap rest (List.tl syncs) kill (run single cap (p_until_done single cap (fuel_for (length g)) n s1) s1)
+      | [], Some e => run single cap (p_until_events single closed cap (fuel_for (length g)) e n s1) s1
+      | _, _ => tie_ops single cap (S i) close_at rest (List.tl syncs) kill
+                        (run single cap (p_until_done single closed cap (fuel_for (length g)) n s1) s1)
       end
   end.
 Definition tc_groups (tc : tcase) : list (list rec) :=
   let '(stk, rss) := ops_run [] (tc_ops tc) in
   if tc_flush tc then rss ++ [segv_flush stk] else rss.
 Definition tc_state (tc : tcase) : st :=
-  tie_ops (tc_single tc) (tc_cap tc) (tc_groups tc) (tc_sync tc) (tc_kill tc) (init (concat (tc_groups tc))).
+  let s := tie_ops (tc_single tc) (tc_cap tc) 0 (tc_close tc) (tc_groups tc) (tc_sync tc) (tc_kill tc)
+                   (init0 (concat (tc_groups tc))) in
+  if (tc_end tc =? 1)%N then dstep true s else if (tc_end tc =? 2)%N then dstep false s else s.
 Definition obs (s : st) : list nat * list N * list nat * list N :=
   let s1 := drain s in
   let s2 := flush_shmem_list s1 in
@@ -598,12 +652,13 @@ Definition agrees (tc : tcase) : bool :=
 (* the property on the implementation's file: whole records, a prefix of the execution; after a
    crash handler that ran to completion: the whole eager trace (every open call included) *)
 Definition ok_case (tc : tcase) : bool :=
-  if tc_flush tc then match_recs (eager [] (tc_ops tc)) (tc_file tc)
+  if tc_flush tc && (length (tc_ops tc) <=? tc_close tc) then match_recs (eager [] (tc_ops tc)) (tc_file tc)
   else ok_prefix (eager [] (tc_ops tc)) (tc_file tc).
 (* the header-before-payload window (known defect): whole records followed by one bare header *)
 Definition window_shape (tc : tcase) : bool :=
   let f := tc_file tc in
   (16 <=? length f) && ok_prefix (eager [] (tc_ops tc)) (firstn (length f - 16) f).
+Definition is_dark (s : st) : bool := match pc s with PDark => true | _ => false end.
 Definition tc_in_window (tc : tcase) : bool := in_window (tc_single tc) (tc_state tc).
 
 (* ---- one case of the liveness tie: messages / SIGCHLD / check_tid_list on real processes ---- *)
